@@ -133,3 +133,16 @@ def run_resilient(ctx, exe, lines, stream, max_crashes=6, timeout=3600):
             out += ["<skipped>"] * len(rest)
             break
     return out
+
+
+def save_ops(lines):
+    """request lines too long for a JSON replay go to a gzip file next to the replays"""
+    import gzip, hashlib, os
+    from lib import core
+    d = os.path.join(core.VERIF, "evidence", "replay")
+    os.makedirs(d, exist_ok=True)
+    txt = "\n".join(lines) + "\n"
+    path = os.path.join(d, "ops-" + hashlib.sha256(txt.encode()).hexdigest()[:12] + ".txt.gz")
+    with gzip.open(path, "wt", compresslevel=6) as f:
+        f.write(txt)
+    return path
